@@ -326,13 +326,13 @@ def exposition_conditions(items):
     return (z3.And(*gram) if gram else z3.BoolVal(True)), (z3.And(*fam) if fam else z3.BoolVal(True))
 
 
-def render(e3, thorough):
+def render(e3, thorough, kinds=("counter", "gauge", "histogram", "summary")):
     """Inner::render on a snapshot of concrete shape (one family per scenario) with symbolic names, descriptions, units and settings"""
     P = _e3.program(["metrics-exporter-prometheus", "metrics"])
     units = P.enums["Unit"]
     dist_variants = P.enums["Distribution"]
     b = P.find("Inner", "render")
-    for kind in ("counter", "gauge", "histogram", "summary"):
+    for kind in kinds:
         nm, base = fresh_chars("n", 2)
         base = base + valid_name_constraint(nm)          # family names reach render() sanitized (key_to_parts / add_description_if_missing)
         ds, base_d = fresh_chars("d", 1)
@@ -407,17 +407,39 @@ def render(e3, thorough):
         e3.absorb(eng)
         done = [l for l in leaves if l.status == "done"]
         other = z3.Or(*[l.taken() for l in leaves if l.status != "done"] or [z3.BoolVal(False)])
-        gbad, fbad = [], []
+        gbad, fbad, vbad = [], [], []
+        vterm = z3.BitVec("v", 64)
         for l in done:
             out = l.ret
             if not (isinstance(out, Native) and out.kind == "sstr"):
                 gbad.append(l.taken())
                 continue
+            if kind in ("counter", "gauge"):
+                # the value printed on the sample line must be the stored value: a counter's u64 printed as an integer, a gauge's f64 in a
+                # form that parses back to the same f64 (Display of f64 does; an integer rendering does iff converting it back gives the value)
+                toks = [it for it in out.data if isinstance(it, tuple) and it[1] == "number"]
+                prov = [getattr(eng, "numtok", {}).get(it[2]) for it in toks]
+                if len(toks) != 1 or prov[0] is None:
+                    vbad.append(l.taken())
+                else:
+                    term, ty = prov[0]
+                    if kind == "counter":
+                        okv = z3.BoolVal(ty in ("u64", "usize") ) if term is vterm or (z3.is_expr(term) and term.eq(vterm)) else z3.BoolVal(False)
+                    elif ty in ("f64",):
+                        okv = term == vterm
+                    elif ty in ("i64", "u64", "i32", "u32", "i128", "u128", "isize", "usize") and z3.is_bv(term):
+                        back = z3.fpSignedToFP(z3.RNE(), term, z3.Float64()) if ty.startswith("i") else z3.fpUnsignedToFP(z3.RNE(), term, z3.Float64())
+                        fv_ = z3.fpBVToFP(vterm, z3.Float64())
+                        okv = z3.And(z3.fpEQ(back, fv_), z3.Not(z3.And(z3.fpIsZero(fv_), z3.fpIsNegative(fv_))))
+                    else:
+                        okv = z3.BoolVal(False)
+                    vbad.append(z3.And(l.taken(), z3.Not(okv)))
             g, fm = exposition_conditions(list(out.data))
             gbad.append(z3.And(l.taken(), z3.Not(g)))
             fbad.append(z3.And(l.taken(), z3.Not(fm)))
         gv = z3.Or(*gbad) if gbad else z3.BoolVal(False)
         fv = z3.Or(*fbad) if fbad else z3.BoolVal(False)
+        vv = z3.Or(*vbad) if vbad else z3.BoolVal(False)
         # the known mechanism (K5): a unit suffix is appended to the sample names only
         count_i, _ = units.index("Count"), None
         k5 = z3.And(suffix_on, described, has_unit, unit_d != bv(count_i))
@@ -433,13 +455,17 @@ def render(e3, thorough):
                 if z3.is_true(ev(l.taken())) and isinstance(l.ret, Native):
                     row["output_as_encoded"] = "".join((chr(ev(it).as_long()) if not isinstance(it, tuple) else f"<{it[1]}>") for it in l.ret.data)
             ob.sample = row
+            vb = ev(vterm).as_long()
+            row["value_bits"] = hex(vb)
             replay_native(ob, "c08_render", ob.name.split(":")[1], {"kind": ["counter", "gauge", "summary", "histogram"].index(kind), "described": int(row["described"]),
-                                                                     "unit": (units.index(row["unit"]) + 1) if row["has_unit"] else 0, "unit_suffix": int(row["enable_unit_suffix"])})
+                                                                     "unit": (units.index(row["unit"]) + 1) if row["has_unit"] else 0, "unit_suffix": int(row["enable_unit_suffix"]), "value": vb})
         specs = [dict(name=f"{cname}:witness", desc="render returns", bounds=bounds, cons=base + [z3.Or(*[l.taken() for l in done] or [z3.BoolVal(False)])], expect_unsat=False),
                  dict(name=f"{cname}:returns", desc="render panics or does not return", bounds=bounds, cons=base + [other], expect_unsat=True),
                  dict(name=f"{cname}:well_formed_exposition", desc="some line of the output is not a well-formed HELP, TYPE, sample or blank line", bounds=bounds, cons=base + [gv], expect_unsat=True, on_model=on_model),
                  dict(name=f"{cname}:samples_belong_to_their_family", desc="a sample's name is not its family's name (the TYPE line before it) plus a suffix that type allows, or a family has two TYPE lines "
                       "(outside the known unit-suffix mechanism)", bounds=bounds, cons=base + [fv, z3.Not(k5)], expect_unsat=True, on_model=on_model),
+                 dict(name=f"{cname}:value_is_the_stored_value", desc="the value on the sample line is not the stored value: a counter not printed as its u64, or a gauge printed in a form that does not parse back to the same f64",
+                      bounds=bounds + "; the value any u64 / any f64 bit pattern", cons=base + [vv, z3.Not(k5)], expect_unsat=True, on_model=on_model),
                  dict(name=f"{cname}:K5_unit_suffix_after_family_name", desc="known finding K5: with unit suffixes enabled and a described unit, sample names get `_<unit>` appended (after the type suffix) while "
                       "the HELP/TYPE lines keep the bare name", bounds=bounds, cons=base + [fv, k5], expect_unsat=True, on_model=on_model, known="C08:K5-unit-suffix-not-in-family-name")]
         res = check.discharge_many(e3.res, specs, 120)
